@@ -1,7 +1,7 @@
 """Native replay: re-evaluate an obligation's post-conditions against the REAL functions of /repo with the
 counterexample's inputs (g++ TU that includes /repo/src/ada.cpp, -fno-access-control)."""
 import re, os
-from .common import VERIF
+from .common import REPO, VERIF
 from .registry import R
 from . import tabdump
 from .cxx2c import parse_fn_params, pass_mode
@@ -150,7 +150,7 @@ def buf_init(w):
 def program(o, info, w, spec_lines=None, fn_node=None, harness_text=None):
     """Return full C++ source for the native replay of obligation o with witness w, or None."""
     inc = ''.join('#include "%s/%s"\n' % (VERIF, i) for i in o.includes)
-    head = '#include "/repo/src/ada.cpp"\n#include <cstdio>\n#include <string>\n#include <string_view>\n#define BUF_N %d\n%s' % (o.bufn or BUFN, '#define BUF_START 1\n' if 'BUF_START' in o.defines else '')
+    head = '#include "' + REPO + '/src/ada.cpp"\n#include <cstdio>\n#include <string>\n#include <string_view>\n#define BUF_N %d\n%s' % (o.bufn or BUFN, '#define BUF_START 1\n' if 'BUF_START' in o.defines else '')
     head += ''.join('#define %s\n' % d.replace('=', ' ', 1) for d in o.defines if not d.startswith('BUF_START')) + PRELUDE + inc
     head += shims(info.get('functions', []) + list(o.roots), set(info.get('globals_q', [])) | set(o.globals), info.get('tables', '')) + '\n'
     head += witness_defines(w) + '\n'
